@@ -30,6 +30,50 @@ CHECKS = [
   "text": "Decides the property for all public entries and all aliasing patterns: no in-place construct of the package (172 enumerated syntactically, each classified) is reachable by a caller-supplied object or by a value returned from a user callback, on any path. Over-approximation (may-alias), so a pass is a proof under the stated library model; a report carries the witness call path.",
   "note": _NOTE},
 ]
+
+CHECKS += [
+ {"id": "C03", "engine": "gridlint", "design_ref": "DESIGN.md 4/C03",
+  "technique": "static sibling-agreement by value numbering (GVN) + definite-assignment + typestate rules",
+  "text": "Decides three structural clauses only: the two copies of the inverse-function-theorem formulas are the same value graph; _domain/_codomain are definitely assigned in all 12 classes; trim_inf is stored and honoured by transform and _convert_inf is two-sided; transforms are stateless apart from the set-once scale. Does NOT decide inverse∘forward=id, correctness of deriv/deriv2/deriv3, monotonicity (algebraic identities; computer algebra is a different family).",
+  "note": _NOTE},
+ {"id": "C04", "engine": "gridlint", "design_ref": "DESIGN.md 4/C04",
+  "technique": "static def-use/value-graph shape of one function + sign abstract domain over closed-form derivatives",
+  "text": "Decides the data-flow shape of transform_1d_grid: nodes = transform(nodes), weights = weights x Jacobian at the same nodes, Jacobian through a magnitude when a decreasing map is shipped, domain = ordered image, precondition and containment check armed. One known finding (signed Jacobian, pinned by a test). Does NOT decide exactness transport or numeric values.",
+  "note": _NOTE + " Sign assumptions: R,k,m,a,b,rmin,rmax>0, rmax>rmin, x in (-1,1)."},
+ {"id": "C05", "engine": "gridlint", "design_ref": "DESIGN.md 4/C05",
+  "technique": "static table<->branch agreement with a literal guard interpreter over npz headers/small tables + sibling value graphs",
+  "text": "Decides: every (preset, element) pair of the 17 shipped archives fits the branch of from_preset it is routed to (1374 pairs, exhaustive); the stored shell and get_shell_grid are the same computation incl. rotation seed; the centre is added once on read; rotations are seeded from rotate; preset sizes are passed as sizes. One known finding (malformed SG-3 silicon table). Does NOT decide numeric points/weights or factorisation of integrals.",
+  "note": _NOTE + " Preset tables are read as configuration tables (compare/len/sum only)."},
+ {"id": "C06", "engine": "gridlint", "design_ref": "DESIGN.md 4/C06",
+  "technique": "static sibling-agreement by value numbering of the duplicated Becke pipelines + guard rules",
+  "text": "Decides the clause 'all evaluation routes return identical numbers' structurally (equal value graphs of the whole-grid and per-atom pipelines, same segment pairing) and two guards (chunk table shifted by the chunk start and clipped at zero; heteronuclear parameter clipped on both sides below 1/2). Does NOT decide bounds, partition of unity, invariances, Hirshfeld (numerical).",
+  "note": _NOTE},
+ {"id": "C07", "engine": "gridlint", "design_ref": "DESIGN.md 4/C07",
+  "technique": "static def-use fan-out analysis + provenance tags (atomic vs atomic x aim) on store-dependent branches",
+  "text": "Decides: the convenience constructors forward every argument to the atomic constructor / cls(...) without crossing the per-atom list/dict dispatch; methods branching on the store flag return weights of the same provenance (one known finding: __getitem__); the constructor concatenates by the index table and applies aim weights once. Does NOT decide numerical equality or the 1% accuracy clause.",
+  "note": _NOTE},
+ {"id": "C10", "engine": "gridlint", "design_ref": "DESIGN.md 4/C10",
+  "technique": "static class-state analysis: definite field assignment over the MRO, memo-invalidation typestate, property/raw-field rule",
+  "text": "Decides for all 35 concrete Grid classes x all visible methods and for all histories of queries/reassignments: no read of an unassigned field, no raw-field read under an overridden property, every writer of a memo's dependency resets the memo, index arrays from ball queries are integer or guarded, __getitem__ admits NumPy integers and re-wraps with all stored parameters, both radius branches use the same sources. The geometric content of the ball query is delegated to cKDTree.",
+  "note": _NOTE},
+ {"id": "C11", "engine": "gridlint", "design_ref": "DESIGN.md 4/C11",
+  "technique": "static guard-dominance + sign abstract domain on the periodic local-grid code",
+  "text": "Decides three guards: accumulators that can be empty are tested before stacking (empty spheres), plane spacings provably non-negative (any sign of lattice vectors), no argument rejection beyond the plain grid without lattice vectors (one known finding: infinite radius, pinned by a test). Does NOT decide completeness/uniqueness of the image enumeration (geometric).",
+  "note": _NOTE},
+ {"id": "C13", "engine": "gridlint", "design_ref": "DESIGN.md 4/C13",
+  "technique": "static guard-dominance analysis of third-axis constructs in the 2-D-capable code of cubic.py",
+  "text": "Decides the clause 'every documented weighting scheme (and the index maps) construct in both dimensions': every construct that only exists in 3-D is dominated by a test implying ndim == 3. Does NOT decide index-map inversion, weights summing to the volume, nearest point, molecule margin, cube round trip, interpolation (numerical).",
+  "note": _NOTE},
+ {"id": "C14", "engine": "gridlint", "design_ref": "DESIGN.md 4/C14",
+  "technique": "static name resolution of third-party references + branch-shape analysis of the order generator + dispatch agreement",
+  "text": "Decides: every NumPy/SciPy/SymPy attribute reference of the package resolves in the installed versions (~890 references); every (type, dim) branch of the order generator appends rows of the right width and returns the row table (dims 1, 2, 3); Grid.moments and the generator agree on the moment types and each type computes its integral once. Does NOT decide that entries equal the quadrature of their integrands.",
+  "note": _NOTE + " The checker imports numpy/scipy/sympy (never grid) to resolve names."},
+ {"id": "C18", "engine": "gridlint", "design_ref": "DESIGN.md 4/C18",
+  "technique": "static sibling-agreement by value numbering under the points<->weights substitution",
+  "text": "Decides lock-step enumeration: points and weights properties, the partial combinations of the vectorised route, the chunk streams of the point-by-point route and the reported size all describe the same product in the same order. Does NOT decide numerical equality of the three routes.",
+  "note": _NOTE + " itertools.product order is the documented lexicographic order."},
+]
+
 _PENDING = "checker designed in DESIGN.md but not yet built in this commit"
 NOT_APPLICABLE = [
     {"property_id": "C01", "reason": "Exactness/ordering of quadrature rules for all n is numerical; the defective Fejer series bounds can only be recognised with the mathematics of the rule (CAS or experiment); no structural clause adds to the tests."},
@@ -37,5 +81,4 @@ NOT_APPLICABLE = [
     {"property_id": "C09", "reason": "Exact recovery of band-limited functions and derivative consistency of spline x harmonic interpolants are numerical."},
     {"property_id": "C15", "reason": "Accuracy of ODE solutions and the Bell-polynomial coefficient transformation are numerical/algebraic; the in-place update found in this file is decided under C20."},
     {"property_id": "C16", "reason": "Accuracy and linearity of Poisson solutions are numerical; the option-dictionary write is decided under C20."},
-] + [{"property_id": p, "reason": _PENDING} for p in
-     ["C03", "C04", "C05", "C06", "C07", "C10", "C11", "C13", "C14", "C18"]]
+]
